@@ -66,8 +66,33 @@ struct stateless_alloc
 
 template <class Proxy> struct session { Proxy p; explicit session(Proxy&& q) : p(std::move(q)) {} };
 
+// stateless allocators are used concurrently as they are (thread_safe_allocator takes no mutex for them): their shared
+// bookkeeping must survive that -- balanced histories from many threads, then the process-wide leak counters must be zero at exit
+#include "heap_allocator.hpp"
+#include "new_allocator.hpp"
+#include "malloc_allocator.hpp"
+static void h_leak_print(const allocator_info& info, std::ptrdiff_t amount) noexcept { std::printf("LEAK %s %ld\n", info.name, long(amount)); std::fflush(stdout); }
+template <class A> static void stateless_round(int nthreads, int iters)
+{
+    static_assert(std::is_same<detail::mutex_for<A, std::mutex>, no_mutex>::value, "a stateless allocator must not get a mutex");
+    thread_safe_allocator<A> alloc{A{}};
+    std::atomic<bool> go{false}; std::vector<std::thread> ts;
+    for (int t = 0; t < nthreads; ++t)
+        ts.emplace_back([&, t] { while (!go.load()) {} for (int i = 0; i < iters; ++i) { void* p = alloc.allocate_node(std::size_t(16 + (i + t) % 48), 8); alloc.deallocate_node(p, std::size_t(16 + (i + t) % 48), 8); } });
+    go = true;
+    for (auto& th : ts) th.join();
+}
+static int run_stateless(int nthreads, int iters)
+{
+    set_leak_handler(h_leak_print);
+    stateless_round<heap_allocator>(nthreads, iters); stateless_round<new_allocator>(nthreads, iters); stateless_round<malloc_allocator>(nthreads, iters);
+    std::printf("stateless threads=%d pairs=%d done\n", nthreads, 3 * nthreads * iters);
+    return 0;     // the leak counters report at exit
+}
+
 int main(int argc, char** argv)
 {
+    if (argc > 3 && std::string(argv[1]) == "stateless") return run_stateless(std::atoi(argv[2]), std::atoi(argv[3]));
     int nthreads = std::atoi(argv[1]); int nops = std::atoi(argv[2]); unsigned seed = unsigned(std::atoi(argv[3]));
     using storage_t = allocator_storage<direct_storage<instr_alloc>, instr_mutex>;
     using ref_t = allocator_storage<reference_storage<instr_alloc>, instr_mutex>;
